@@ -588,6 +588,30 @@ theorem tie_cacheEntryPoints :
       (e.2.2.1 == [] || e.2.2.1 == ["key"] || e.2.2.1 == ["keys..."])) = true ∧
     GoZero.Extracted.C15.cacheMethods.length = 13 := by decide
 
+/-! ### round 5e: the delegating wrappers as functions of their arguments -/
+
+/-- **`AddWithWeight` ALWAYS delegates**, with `h.replicas * weight / TopWeight`: the whole body, translated, hands exactly
+the model's `weightReplicas` to `AddWithReplicas` for every weight whose product fits an `int` — in particular it never
+returns without the call (-2^62), so the `Remove` inside `AddWithReplicas` runs also for weights ≤ 0 (an early return for
+`replicas <= 0`, seeded C15-10, falsifies this at weight 0) -/
+theorem tie_addWithWeightCall (R : Nat) (weight : Int)
+    (h : -9223372036854775808 ≤ (R : Int) * weight ∧ (R : Int) * weight < 9223372036854775808) :
+    GoZero.Extracted.C15.addWithWeightCall weight (R : Int) GoZero.Extracted.C15.topWeight
+      = GoZero.C15.weightReplicas R weight := by
+  unfold GoZero.Extracted.C15.addWithWeightCall GoZero.C15.weightReplicas GoZero.Extracted.C15.topWeight GoZero.C15.topWeight
+  rw [wrapInt_id _ h]
+
+/-- … and for every weight it is the translated body applied to the wrapped product (never the no-call value) -/
+theorem tie_addWithWeightCall_overflow (R : Nat) (weight : Int) :
+    GoZero.Extracted.C15.addWithWeightCall (wrapInt ((R : Int) * weight)) 1 GoZero.Extracted.C15.topWeight
+      = GoZero.C15.weightReplicas R weight := by
+  unfold GoZero.Extracted.C15.addWithWeightCall GoZero.C15.weightReplicas GoZero.Extracted.C15.topWeight GoZero.C15.topWeight
+  rw [Int.one_mul]
+
+/-- **`Add` always delegates with `h.replicas`** (model `add`: `addWithReplicas … s.replicas`), whatever the state -/
+theorem tie_addCall (H : Hasher) (s : CH) (n : Node) :
+    add H s n = addWithReplicas H s n (GoZero.Extracted.C15.addCall (s.replicas : Int)) := rfl
+
 /-! ### round 5c: the ORDER OF LOCK EFFECTS as a typed list, interpreted -/
 
 /-- the statement skeleton as effects on `h.lock` (everything else is `work`, adjacent `work` merged) -/
